@@ -218,12 +218,18 @@ def intLitBase (tok : Str) : Option Nat :=
 
 /-- which quoted form a string token has. -/
 inductive StrTok where
-  | plain (body : Str)     -- 'body' or "body": no prefix, no backslash, no quote of its own kind, no newline
+  | plain (body : Str)     -- 'body' or "body": no prefix, no unescaped quote of its own kind, no newline (escapes allowed)
   | triple (body : Str)    -- '''body''' or """body""": no prefix, no backslash
   | other                  -- prefixed (r b u f), escaped, or not a string token
 deriving DecidableEq, Repr
 
-def plainBodyOk (q : Char) (body : Str) : Bool := body.all (fun c => c ≠ q && c ≠ '\\' && c ≠ '\n')
+/-- scanning the body of a one-line token: no unescaped quote of its own kind, no raw newline, not ending in a lone backslash -/
+def scanPlain (q : Char) : Bool → Str → Bool
+  | esc, [] => !esc
+  | false, c :: cs => if c = '\\' then scanPlain q true cs else c ≠ q && c ≠ '\n' && scanPlain q false cs
+  | true, c :: cs => c ≠ '\n' && scanPlain q false cs
+
+def plainBodyOk (q : Char) (body : Str) : Bool := scanPlain q false body
 
 def tripleBodyOk (q : Char) (body : Str) : Bool :=
   body.all (fun c => c ≠ '\\') && (Str.find body [q, q, q]).isNone && body.getLast? ≠ some q
@@ -377,6 +383,19 @@ def joinsEscape (l r : Str) : Bool :=
   | .normal => false
   | .oct _ _ => (match r with | c :: _ => (octVal c).isSome | [] => false)
   | _ => true
+
+/-- the body uses only escape sequences the decoder models (`\u`, `\U`, `\N{…}`, a line continuation and a malformed `\x` are
+    not) and does not end inside `\`, `\x`, `\xh`. -/
+def escOkGo : DecState → Str → Bool
+  | st, [] => (match st with | .normal => true | .oct _ _ => true | _ => false)
+  | st, c :: cs =>
+    (match st with
+     | .backslash => !(c = 'u' || c = 'U' || c = 'N' || c = '\n')
+     | .hex0 => (Str.hexVal c).isSome
+     | .hex1 _ _ => (Str.hexVal c).isSome
+     | _ => true) && escOkGo (stepSt st c).2 cs
+
+def escOk (body : Str) : Bool := escOkGo .normal body
 
 /-- the shipped join rule: `assert … and not self._joins_escape(left, right)` then `_cat` (evaluator.py:80-81). -/
 def catSafe (l r : Str) : Except Err Str :=
@@ -560,10 +579,11 @@ end
 /-- which region is cut out of CPython's semantics (`false` = CPython itself). After the repairs of the evaluator one is left. -/
 structure Mode where
   lowerHex : Bool      -- H4: a `0X…` literal raises `excluded`
+  noEsc : Bool         -- H6: a string token with a backslash raises `excluded`
 deriving DecidableEq, Repr
 
-def Mode.py : Mode := ⟨false⟩
-def Mode.strict : Mode := ⟨true⟩
+def Mode.py : Mode := ⟨false, false⟩
+def Mode.strict : Mode := ⟨true, true⟩
 
 def pyOpTable : List (Str × BinKind) :=
   [(['+'], .add), (['-'], .sub), (['*'], .mult), (['/'], .div), (['%'], .mod),
@@ -621,9 +641,11 @@ def pyIntLit (m : Mode) (tok : Str) : Except PyExc Int :=
   | none => .error .syntaxError
 
 /-- value of a string literal token -/
-def pyStrLit (_m : Mode) (tok : Str) : Except PyExc Str :=
+def pyStrLit (m : Mode) (tok : Str) : Except PyExc Str :=
   match classifyStr tok with
-  | .plain body => .ok body
+  | .plain body =>
+    if m.noEsc && body.contains '\\' then .error .excluded
+    else if escOk body then .ok (decodeEsc body) else .error .unsupported
   | .triple body => .ok body
   | .other => .error .unsupported
 
@@ -706,17 +728,18 @@ def bindAll {F} (m : Mode) (ops : FloatOps F) (known : List Str) (acc : VEnv F) 
 /-- the folder's string `s` is the CPython string `c` between two quote characters. -/
 def Quoted (s c : Str) : Prop := ∃ q q', isQuote q = true ∧ isQuote q' = true ∧ s = q :: (c ++ [q'])
 
-/-- same type, same value; strings compared by content (the folder's strings carry their quotes). -/
-inductive Sim {F : Type} : V F → V F → Prop where
-  | int (n : Int) : Sim (.int n) (.int n)
-  | float (x : F) : Sim (.float x) (.float x)
-  | str {s c : Str} : Quoted s c → Sim (.str s) (.str c)
+/-- same type, same value; strings compared by content: the folder's string `s` is a raw body `raw` between two quote characters
+    and CPython's string is what `raw` decodes to. In a mode that cuts escapes out (`noEsc`) the raw body has no backslash. -/
+inductive Sim {F : Type} (m : Mode) : V F → V F → Prop where
+  | int (n : Int) : Sim m (.int n) (.int n)
+  | float (x : F) : Sim m (.float x) (.float x)
+  | str {s raw c : Str} : Quoted s raw → decodeEsc raw = c → (m.noEsc = true → raw.contains '\\' = false) → Sim m (.str s) (.str c)
 
 /-- executable version of `Sim` for the driver and `decide`d examples. -/
 def simB {F} [DecidableEq F] : V F → V F → Bool
   | .int a, .int b => a = b
   | .float x, .float y => x = y
-  | .str s, .str c => allowString s && unq s = c
+  | .str s, .str c => allowString s && decodeEsc (unq s) = c
   | _, _ => false
 
 /-! ## the symbolic float used by the driver and by the examples -/
@@ -734,7 +757,7 @@ inductive FTerm where
   | truediv (a b : Int)
 deriving DecidableEq, Repr, Inhabited
 
-/-- the free interpretation: nothing raises, `int(x)` is 0, `str(x)` is `?`. Used for examples only. -/
+/-- the free interpretation: nothing raises (but `float()` of a text with a backslash), `int(x)` is 0, `str(x)` is `?`. Examples only. -/
 def freeOps : FloatOps FTerm where
   add := .add
   sub := .sub
@@ -744,7 +767,7 @@ def freeOps : FloatOps FTerm where
   neg := .neg
   ofInt n := .ok (.ofInt n)
   toInt _ := .ok 0
-  parse s := .ok (.parse s)
+  parse s := if s.contains '\\' then .error .valueError else .ok (.parse s)
   toStr _ := ['?']
   truediv a b := .ok (.truediv a b)
 
